@@ -26,6 +26,7 @@ pub fn configs(thorough: bool) -> Vec<EpCfg> {
                     c.alph.after_disconnect = true;
                     c.alph.erase = true;
                     c.alph.defer_pubrel = true;
+                    c.alph.early_peer_traffic = true;
                     c.alph.send_fail = thorough;
                     // a refused connection attempt (failure CONNACK sent or received) leaves the session alone
                     c.connacks.push(AckProf { ok: false, ..AckProf::basic(false) });
